@@ -257,8 +257,13 @@ def real_multipool(chk):
             elif leaks:
                 part.violation(case, f"temporary file left after a worker failure on a real MultiPool: {leaks}")
             else:
-                ok = seams.make_stub_joker(table, np.random.default_rng(1), pool=pool, tempfile_path=tmpdir)
-                out = np.array(ok.marginal_ln_likelihood(None, lib, n_batches=4))
+                # the SAME TheJoker (and pool) must give correct results on the next call
+                try:
+                    ok = seams.make_stub_joker(table, np.random.default_rng(1), pool=pool, tempfile_path=tmpdir)
+                    out = np.array(ok.marginal_ln_likelihood(None, lib, n_batches=4))
+                except BaseException as ex:  # noqa
+                    part.violation(case, f"after a worker failure the pool / sampler is unusable: {type(ex).__name__}: {ex}")
+                    continue
                 if list(out) != [table[i] for i in range(6)]:
                     part.violation(case, "pool not usable / wrong results after a worker failure", observed=out)
                 else:
